@@ -393,23 +393,24 @@ def run(ctx):
             # the skip test: `if <var> is SENTINEL: continue` (body never falls through)
             skip = None
             for st in loop.body[loop.body.index(rd) + 1:]:
-                if isinstance(st, ast.If) and isinstance(st.test, ast.Compare) and len(st.test.ops) == 1 \
-                        and isinstance(st.test.ops[0], ast.Is) and norm(st.test.left) == var \
-                        and dotted(st.test.comparators[0]) == sent_name and st.body \
-                        and isinstance(st.body[-1], (ast.Continue, ast.Return, ast.Raise, ast.Break)):
-                    skip = st
-                    break
+                # a skip test is any `if <test>: ...continue` whose test is TRUE when the variable holds the sentinel
+                # (`v is SENTINEL`, `not isinstance(v, str)`, ...) - evaluated with the foreign-operand evaluator
+                if isinstance(st, ast.If) and st.body and isinstance(st.body[-1], (ast.Continue, ast.Return, ast.Raise, ast.Break)) \
+                        and any(isinstance(n, ast.Name) and n.id == var for n in ast.walk(st.test)):
+                    if ev.truth(st.test, {var: "FOREIGN"}, fn, None, 0) is True:
+                        skip = st
+                        break
             if skip is None:
-                ctx.fail("R8.5", f"{fn.name}:skip-missing", f"no `if {var} is {sent_name}: continue` follows the field read "
+                ctx.fail("R8.5", f"{fn.name}:skip-missing", f"no test that is true for the sentinel and skips the field follows the read of {var} "
                          "(a missing field is not skipped)", rd, key=f"R8.5:{fn.name}:no-skip-test")
                 continue
             rd_node, skip_node = fcfg.node_of(rd), fcfg.node_of(skip)
             uses = [n for st in loop.body[loop.body.index(rd) + 1:] for n in ast.walk(st)
-                    if isinstance(n, ast.Name) and n.id == var and isinstance(n.ctx, ast.Load) and getattr(n, "_parent", None) is not skip.test]
+                    if isinstance(n, ast.Name) and n.id == var and isinstance(n.ctx, ast.Load) and n not in list(ast.walk(skip.test))]
             use_nodes = {(fcfg.header_node_for_expr(u) or fcfg.node_of(u)).id for u in uses}
             escaped = fcfg.must_pass_through(use_nodes, via=lambda n: n.id == skip_node.id, src=rd_node.id)
             ctx.check(not escaped, "R8.5", f"{fn.name}:skip-missing",
                       f"{var} is used (line {fcfg.nodes[escaped[0]].lineno if escaped else 0}) on a path from the field read that "
                       "bypasses the sentinel test (a missing field is not skipped)", rd,
-                      f"every path from the read of {var} to its {len(uses)} uses passes `if {var} is {sent_name}: continue`")
+                      f"every path from the read of {var} to its {len(uses)} uses passes the sentinel-skipping test `{norm(skip.test)}`")
     ctx.floor("R8.5", "helper functions looping over field names", looping, 3)
